@@ -17,7 +17,7 @@ PROPS = {
     'C07': {'units': ['fri', 'shape', 'fold', 'fchain', 'fquery', 'evpts', 'openin', 'onehot'], 'kani': [], 'only': {'shape': r'verify_fri_circuit'}, 'exclude': r'possible (bit shift|arithmetic)'},
     'C05': {'units': ['chal', 'coef'], 'kani': [], 'exclude': r'canonical_width', 'only': {'coef': r'select_path'}},
     'C06': {'units': ['bind', 'pchain', 'pexec'], 'kani': [], 'only': {'pexec': r'compact_header|limb_ctl_enabled|preprocess_flags'}},
-    'C17': {'units': ['cache', 'rcplug'], 'kani': []},
+    'C17': {'units': ['cache', 'rcplug', 'backcfg'], 'kani': []},
     'C10': {'units': ['sched', 'tracegen', 'ptrace', 'vrfy', 'extkind'], 'kani': []},
     'C18': {'units': ['dsu', 'order', 'pphase', 'fvalid', 'iterord', 'hashord'], 'kani': []},
     'C14': {'units': ['pack', 'pack2', 'pack3', 'pubin'], 'kani': []},
